@@ -40,8 +40,7 @@ Print Assumptions C02_bad_crc_no_effect.
 Theorem C02_resync :
   rx_byte rx_fresh pkt_magic = (rx_fresh, RxNone) /\
   (forall s, r_synced s = true -> fst (rx_byte s pkt_magic) = rx_fresh) /\
-  (forall x, ~ In pkt_magic x -> forall s,
-     Forall (fun it => match it with Faulted _ => True | _ => False end) (snd (rx_run s x))).
+  (forall x, ~ In pkt_magic x -> forall s, snd (rx_run s x) = []).
 Proof. exact (conj rx_magic_fresh (conj rx_magic_resync rx_no_magic_silent)). Qed.
 Print Assumptions C02_resync.
 
